@@ -33,6 +33,11 @@ func init() {
 		"vfFreeze":      vfFreeze,
 		"vfSymbolic":    func(fr *frame, a []value) value { return true },
 		"vfNote":        func(fr *frame, a []value) value { return nil },
+		"vfMapOrderMark": func(fr *frame, a []value) value {
+			fr.i.needPath("vfMapOrderMark")
+			fr.i.ps.mapMark = true
+			return nil
+		},
 	}
 }
 
